@@ -790,6 +790,27 @@ func Stamp() uint64 {
 //go:norace
 func Steps() int64 { return K.steps }
 
+// StepsPeek / CurNamePeek are read by a watchdog goroutine outside the
+// simulation (racy by design: they only feed a "no progress" heuristic).
+//
+//go:norace
+func StepsPeek() int64 {
+	k := K
+	if k == nil {
+		return -1
+	}
+	return k.steps
+}
+
+//go:norace
+func CurNamePeek() string {
+	k := K
+	if k == nil || k.cur == nil {
+		return "?"
+	}
+	return k.cur.Name + " " + k.cur.Label
+}
+
 // Sleep blocks the current task for d simulated nanoseconds.
 //
 //go:norace
